@@ -57,6 +57,8 @@ def cases(draw):
         case["assignment"] = [draw(st.sampled_from(domains["d%d" % names.index(s)])) for s in scope]
         case["new_value"] = draw(st.one_of(COSTS[ck], gen.small_int_costs, gen.dyadic_costs))
         case["form"] = draw(st.sampled_from(["dict", "list"]))
+        # the dict form names its variables: its key order is free (a permutation seed, 0 = dimension order)
+        case["key_order"] = draw(st.integers(0, 23))
     if op == "proj":
         case["proj_var"] = draw(st.sampled_from(scope))
         case["mode"] = draw(st.sampled_from(["min", "max"]))
@@ -102,7 +104,14 @@ def run_case(case):
         if op == "set":
             labels.append("form:" + case["form"])
             labels.append("arity:%d" % len(d0["scope"]))
-            ass = dict(zip(d0["scope"], case["assignment"]))
+            pairs = list(zip(d0["scope"], case["assignment"]))
+            seed, ordered = case.get("key_order", 0), []
+            while pairs:
+                seed, i = divmod(seed, len(pairs))
+                ordered.append(pairs.pop(i))
+            ass = dict(ordered)
+            if list(ass) != list(d0["scope"]):
+                labels.append("dict-keys-permuted")
             new = case["new_value"]
             with under_test():
                 res = r0.set_value_for_assignment(ass if case["form"] == "dict" else list(case["assignment"]), new)
